@@ -159,6 +159,9 @@ func genResolverShared(repo string) (string, error) {
 						}
 					case *ast.IncDecStmt:
 						noteVar(x.X, "incdec")
+						if fn := resolverField(x.X); fn != "" && isResolverPkg {
+							fwrites = append(fwrites, []string{sysn, fn, fname})
+						}
 					case *ast.UnaryExpr:
 						if x.Op == token.AND {
 							noteVar(x.X, "address-taken")
